@@ -1149,6 +1149,9 @@ pub fn pick(a: Figure, b: Figs) -> Figure { a }
 pub fn area(s) { case s { Circle(r: r) -> r * r Square(side: x) -> x * x } }
 pub const k = 1
 pub type Tone { Low High }
+pub type Inner { Inner(z: Int) }
+pub type Outer { Outer(inner: Inner, tones: List(Tone)) }
+pub fn outer() -> Outer { Outer(Inner(1), []) }
 ";
 
 /// Functions of a module that uses `lib` through one import form; (function text with `{Q}` for
@@ -1177,6 +1180,10 @@ fn cross_cases() -> Vec<(&'static str, RTy)> {
         ("fn c16() { let t = {Q}Low let h = Own(1) #(t, home(h.n)) }", f(vec![], Tuple(vec![Named("Tone".into(), vec![]), Named("Own".into(), vec![])]))),
         ("fn c17(t) { case t { {Q}Low -> Own(1) {Q}High -> home(2) } }", f(vec![Named("Tone".into(), vec![])], Named("Own".into(), vec![]))),
         ("fn c18() { let t = {Q}High let o: Own = todo #(o, t) }", f(vec![], Tuple(vec![Named("Own".into(), vec![]), Named("Tone".into(), vec![])]))),
+        // a field whose type is declared in the other module (the using module has a type of that name too)
+        ("fn c19(o: {Q}Outer) { o.inner }", f(vec![Named("Outer".into(), vec![])], Named("Inner".into(), vec![]))),
+        ("fn c20(o: {Q}Outer) { o.inner.z }", f(vec![Named("Outer".into(), vec![])], Int)),
+        ("fn c21() { {Q}outer().tones }", f(vec![], List(Box::new(Named("Tone".into(), vec![]))))),
     ]
 }
 
@@ -1188,7 +1195,7 @@ fn cross_module_layer(rep: &mut Report) {
         ("qualified", "import lib\n", "lib."),
         ("module alias", "import lib as l\n", "l."),
         ("same module", XLIB, ""),
-        ("unqualified", "import lib.{type Figure, type Figs, type Pred, type Shape, type WInt, type Wrap, type Pairs, type Tone, mk, id, pick, area, k, Circle, Square, Wrap, Low, High}\n", ""),
+        ("unqualified", "import lib.{type Figure, type Figs, type Pred, type Shape, type WInt, type Wrap, type Pairs, type Tone, type Outer, mk, id, pick, area, k, outer, Circle, Square, Wrap, Low, High}\n", ""),
     ];
     let cases = cross_cases();
     let mut l = Layer { name: "across-modules".into(), exhaustive: true, ..Default::default() };
@@ -1226,7 +1233,7 @@ fn cross_module_layer(rep: &mut Report) {
                     _ => false,
                 };
                 if !ok {
-                    let tags = ["alias", "alias of a list", "alias of a function type", "alias of a generic instance", "function", "generic function", "module constant used as a value", "field of a constructed generic record", "function with alias parameters", "generic constructor", "generic alias", "unannotated function", "alias in a return annotation", "constructor patterns", "generic record of an alias", "field-less constructor, then the using module's own items", "field-less constructor patterns, then the using module's own items", "field-less constructor, then an annotation naming the using module's type"];
+                    let tags = ["alias", "alias of a list", "alias of a function type", "alias of a generic instance", "function", "generic function", "module constant used as a value", "field of a constructed generic record", "function with alias parameters", "generic constructor", "generic alias", "unannotated function", "alias in a return annotation", "constructor patterns", "generic record of an alias", "field-less constructor, then the using module's own items", "field-less constructor patterns, then the using module's own items", "field-less constructor, then an annotation naming the using module's type", "field typed by a type of the other module", "field of a field typed in the other module", "field typed by a list of the other module's type"];
                     rep.violation(Violation { class: "function-type".into(), key: format!("across-modules|{fname}|{}", tags.get(k).copied().unwrap_or("?")), witness: json!({"cross_form": fname, "order": order, "case": k}), detail: format!("[{fname} import] `{}`: shown {got:?}, Gleam's type is `{}`", cases[k].0.replace("{Q}", q), show(want)) });
                 }
             }
